@@ -217,9 +217,9 @@ Example partial_nonvacuous :
                 /\ In (ODeliver 1 (KData 9)) log /\ In (OSrvClosed 0) log.
 Proof.
   eexists. eexists. split; [vm_compute; reflexivity|]. split.
-  - simpl. unfold idle_close_ok. simpl. repeat split; auto.
+  - vm_compute. repeat split; auto.
     right. repeat split; auto.
-    + intros j. unfold upd. repeat (destruct (Nat.eqb j _); simpl; try tauto).
-    + intros k. unfold updk. repeat (destruct (key_eqb k _); simpl; try discriminate).
+    + intros j. destruct j as [|[|j]]; simpl; tauto.
+    + intros x. match goal with |- (if ?b then None else _) = _ -> _ => destruct b; discriminate end.
   - split; simpl; tauto.
 Qed.
